@@ -8,6 +8,7 @@ LEVEL = "model_checking"
 def run(tier, seed):
     jobs = catalog.jobs_for('C01', tier, seed)
     cov, viol = common.run_catalogue(jobs, tier, 'C01')
+    common.body_protocol_conformance(cov)
     fcov, fviol = frontends.run_jobs(frontends.upload_jobs(tier, 'C01', faults=True))
     cov['other_front_ends'] = fcov
     for k in ('states', 'transitions'):
